@@ -43,3 +43,43 @@ def reject_plugin(total, pieces, seed):
     RejectPlugin.__name__ = RejectPlugin.__qualname__ = 'RejectPlugin_%d_%d_%d' % (total, pieces, seed)
     _CACHE[key] = RejectPlugin
     return RejectPlugin
+
+
+def recording_plugin(log, tag='P'):
+    """HttpProxyBasePlugin that passes everything through and appends (tag, hook) to `log` for every
+    request-handling hook that runs."""
+    key = ('rec', id(log), tag)
+    if key in _CACHE:
+        return _CACHE[key]
+    from proxy.http.proxy import HttpProxyBasePlugin
+
+    class Recorder(HttpProxyBasePlugin):
+        def resolve_dns(self, host, port):
+            log.append((tag, 'resolve_dns'))
+            return None, None
+
+        def before_upstream_connection(self, request):
+            log.append((tag, 'before_upstream_connection'))
+            return request
+
+        def handle_client_request(self, request):
+            log.append((tag, 'handle_client_request'))
+            return request
+
+        def handle_client_data(self, raw):
+            log.append((tag, 'handle_client_data'))
+            return raw
+
+        def handle_upstream_chunk(self, chunk):
+            log.append((tag, 'handle_upstream_chunk'))
+            return chunk
+
+        def on_upstream_connection_close(self):
+            log.append((tag, 'on_upstream_connection_close'))
+
+        def on_access_log(self, context):
+            log.append((tag, 'on_access_log'))
+            return context
+    Recorder.__name__ = Recorder.__qualname__ = 'Recorder_%s_%d' % (tag, len(_CACHE))
+    _CACHE[key] = Recorder
+    return Recorder
